@@ -38,6 +38,10 @@ Section Check.
   Inductive ev :=
   | ELocal (r : nat) (c : call) (o : obs) (view : val) (size : Z)
   | ETx (r : nat) (tag : str) (cs : list call) (fail : bool) (os : list obs) (view : val) (size : Z)
+  (* a call / a committed transaction of a concurrent phase, placed where its operations stand in the buffer; the
+     state right after it was not observable (other goroutines were running) *)
+  | ELocalQ (r : nat) (c : call) (o : obs)
+  | ETxQ (r : nat) (tag : str) (cs : list call) (os : list obs)
   | EPush (r : nat) (ops : list op)
   | EDeliver (r : nat) (n : nat) (ok : bool) (view : val) (size : Z)
   | ERecv (r : nat) (ops : list op) (ok : bool) (view : val) (size : Z)    (* a raw batch, cursor untouched *)
@@ -68,6 +72,20 @@ Section Check.
             let '(d', outs) := transaction St call ret J k_validate k_local k_remote k_export k_import (r_dt x) tag cs fail in
             if list_eqb obs_eqb (map to_obs outs) os && state_ok d' view size
             then Some (set_rep St call J s r (mkRep d' (r_cur x))) else None
+        | None => None
+        end
+    | ELocalQ r c o =>
+        match get_rep St call J s r with
+        | Some x =>
+            let '(d', out) := local_call St call ret J k_validate k_local (r_dt x) c in
+            if obs_eqb (to_obs out) o then Some (set_rep St call J s r (mkRep d' (r_cur x))) else None
+        | None => None
+        end
+    | ETxQ r tag cs os =>
+        match get_rep St call J s r with
+        | Some x =>
+            let '(d', outs) := transaction St call ret J k_validate k_local k_remote k_export k_import (r_dt x) tag cs false in
+            if list_eqb obs_eqb (map to_obs outs) os then Some (set_rep St call J s r (mkRep d' (r_cur x))) else None
         | None => None
         end
     | EPush r ops =>
@@ -125,6 +143,18 @@ Section Check.
                     DTx (map to_obs outs) (k_view (d_snap d')) (k_size (d_snap d'))
         | None => DNone
         end
+    | ELocalQ r c _ =>
+        match get_rep St call J s r with
+        | Some x => let '(d', out) := local_call St call ret J k_validate k_local (r_dt x) c in
+                    DLocal (to_obs out) (k_view (d_snap d')) (k_size (d_snap d'))
+        | None => DNone
+        end
+    | ETxQ r tag cs _ =>
+        match get_rep St call J s r with
+        | Some x => let '(d', outs) := transaction St call ret J k_validate k_local k_remote k_export k_import (r_dt x) tag cs false in
+                    DTx (map to_obs outs) (k_view (d_snap d')) (k_size (d_snap d'))
+        | None => DNone
+        end
     | EPush r _ => match sys_push St call J s r with Some (_, mops) => DPush mops | None => DNone end
     | EDeliver r n _ _ _ =>
         match sys_deliver St call J k_remote s r n with
@@ -164,6 +194,8 @@ End Check.
 
 Arguments ELocal {call}.
 Arguments ETx {call}.
+Arguments ELocalQ {call}.
+Arguments ETxQ {call}.
 Arguments EPush {call}.
 Arguments EDeliver {call}.
 Arguments ERecv {call}.
